@@ -48,6 +48,35 @@ func (p *pStringer) String() string {
 	return p.s
 }
 
+// pointer-receiver implementations: pStrict/pNumber/pBoolean dereference their receiver, pTolerant answers for nil too
+type pStrict struct{ s string }
+
+func (p *pStrict) String() string { return p.s }
+
+type pNumber struct{ f float64 }
+
+func (p *pNumber) Number() float64 { return p.f }
+
+type pBoolean struct{ b bool }
+
+func (p *pBoolean) Boolean() bool { return p.b }
+
+type pTolerant struct{ s string }
+
+func (p *pTolerant) String() string {
+	if p == nil {
+		return "empty"
+	}
+	return p.s
+}
+func (p *pTolerant) Number() float64 {
+	if p == nil {
+		return 7
+	}
+	return 1
+}
+func (p *pTolerant) Boolean() bool { return true }
+
 // customSafe is an application's own implementation of stick.SafeValue (wrappers may nest).
 type customSafe struct{ v stick.Value }
 
@@ -96,6 +125,12 @@ type embOuter struct {
 	Base
 	*hiddenBase
 	Own string
+}
+
+type funcFields struct {
+	F func() string
+	N func() string
+	G func(int) string
 }
 
 func newPerson() person {
@@ -233,6 +268,14 @@ func fixtureByID(id string) (stick.Value, error) {
 			return (*vNumber)(nil), nil
 		case "vboolean":
 			return (*vBoolean)(nil), nil
+		case "pstrict":
+			return (*pStrict)(nil), nil
+		case "pnumber":
+			return (*pNumber)(nil), nil
+		case "pboolean":
+			return (*pBoolean)(nil), nil
+		case "ptolerant":
+			return (*pTolerant)(nil), nil
 		}
 	case "ptr":
 		in, err := fixtureByID(id[4:])
@@ -263,6 +306,10 @@ func fixtureByID(id string) (stick.Value, error) {
 		case person:
 			return &v, nil
 		case embOuter:
+			return &v, nil
+		case funcFields:
+			return &v, nil
+		case map[interface{}]string:
 			return &v, nil
 		case [3]int:
 			return &v, nil
@@ -378,6 +425,12 @@ func fixtureByID(id string) (stick.Value, error) {
 				m[userLevel(n)] = e[1]
 			}
 			return m, nil
+		case "vs":
+			m := map[interface{}]string{}
+			for _, e := range kv() {
+				m[e[0]] = e[1]
+			}
+			return m, nil
 		case "nilss":
 			return map[string]string(nil), nil
 		}
@@ -387,6 +440,12 @@ func fixtureByID(id string) (stick.Value, error) {
 		}
 		if arg(1) == "empty" {
 			return struct{}{}, nil
+		}
+		if arg(1) == "embnil" {
+			return embOuter{Base: Base{ID: 7, Title: "ti"}, Own: "own"}, nil
+		}
+		if arg(1) == "funcs" {
+			return funcFields{F: func() string { return "x" }}, nil
 		}
 		if arg(1) == "emb" {
 			return embOuter{Base: Base{ID: 7, Title: "ti"}, hiddenBase: &hiddenBase{Code: 3}, Own: "own"}, nil
